@@ -234,13 +234,19 @@ HARNESSES = [
                "sparse_super / sparse_super2 + old s_backup_bgs, descriptor checksums, lazy_itable_init, reserved GDT 0..2, table placement symbolic"),
 ]
 MANIFEST = {
-    "text": "Bounded-exhaustive model checking (CBMC) of four kernels of resize2fs compiled from the real sources: the error-flag "
+    "text": "Bounded-exhaustive model checking (CBMC) of kernels of resize2fs compiled from the real sources: the error-flag "
             "protocol of resize_fs() under every fault schedule of its stages, the relocation table (add / translate / sort / iterate), "
             "the size resize2fs settles on (adjust_new_size vs adjust_fs_info vs the format rules, every size below 2^32 / 2^36) and the "
-            "32/64-bit group descriptor conversion. Within each harness's stated bounds the verdict covers every value. This is a thin "
+            "32/64-bit group descriptor conversion; plus kernel-level steps of the data-moving stages with recording stubs underneath: EA block "
+            "reference relocation (eamove), the per-inode renumbering decision of inode_scan_and_fix (inoscan), blocks_to_move incl. the "
+            "sparse_super2 call protocol (blkmove), reserve/clear_sparse_super2_last_group against the backup-group footprint (ss2reserve, "
+            "ss2clear), the directory-entry callback of inode_ref_fix (dirref), resize2fs_calculate_summary_stats against a plain count incl. "
+            "bigalloc (sumstats), move_itables on a tagged block device incl. overlapping moves (itmove), and the initialisation of added groups "
+            "by adjust_fs_info on a grow against the backup footprint of the NEW file system (newgroups). Within each harness's stated bounds the verdict covers every value. This is a thin "
             "slice of C08: no file content is ever moved or compared.",
     "note": "Trusted: CBMC's C semantics (incl. its float model for the interpolation search), the stage stubs of errflag and their "
             "stated side effects, the harness's restatement of the on-disk format. Query errflag[FLUSH_FAULT] (the flush that makes the error flag durable may "
             "fail) found that resize_fs ignored that result; repaired in /repo by 58c4b827, the query now passes. Recording stubs of "
-            "eamove / inoscan / blkmove / ss2reserve and the byte-per-block bitmap stand-in (bytemap.h) are part of the trusted base.",
+            "eamove / inoscan / blkmove / ss2reserve / dirref / sumstats / itmove / newgroups (incl. the allocator specification stub of newgroups) "
+            "and the byte-per-block bitmap stand-in (bytemap.h) are part of the trusted base.",
 }
